@@ -135,6 +135,18 @@ type view struct {
 	backend string
 	unc     bool
 	prefix  string // S3 key prefix including the trailing "/" ("" = bucket root)
+	via     string // name used in signatures instead of backend ("cli": the operation ran through the desync command)
+	// born: files that came into being during this case's own StoreChunk calls (through the
+	// store under test) and are not chunk files: whatever their name looks like, they are
+	// abandoned temporary chunk files by provenance.
+	born map[string]bool
+}
+
+func (v view) sigName() string {
+	if v.via != "" {
+		return v.via
+	}
+	return v.backend
 }
 
 func (v view) classOf(key string) fclass {
@@ -203,12 +215,18 @@ func sortedKeys(s snap) []string {
 // temporary chunk file must be gone.
 func judgePrune(v view, before, after snap, keep map[string]bool, pruneErr error) *verdicts {
 	var out verdicts
-	sig := func(s string) string { return "C16:" + v.backend + ":prune:" + s }
+	sig := func(s string) string { return "C16:" + v.sigName() + ":prune:" + s }
 	for _, k := range sortedKeys(before) {
 		cl := v.classOf(k)
 		now, still := after[k]
 		gone := !still
 		altered := still && now != before[k]
+		if v.born[k] && cl.Kind != kOwn && cl.Kind != kOther {
+			if pruneErr == nil && !gone {
+				out.add(sig("upload-temp-left"), k)
+			}
+			continue
+		}
 		switch cl.Kind {
 		case kOwn:
 			if keep[cl.ID] {
@@ -276,7 +294,7 @@ const (
 // ("aborted-incomplete").
 func judgeVerify(v view, before, after snap, reported map[string]bool, repair bool, ended string) *verdicts {
 	var out verdicts
-	sig := func(s string) string { return "C16:" + v.backend + ":verify:" + s }
+	sig := func(s string) string { return "C16:" + v.sigName() + ":verify:" + s }
 	complete := ended != vExcused
 	incomplete := func(s string) string {
 		if ended == vAborted {
